@@ -26,9 +26,9 @@ impl Check for C17 {
     }
     fn n_runs(&self, thorough: bool) -> u64 {
         if thorough {
-            80_000
+            1_700_000
         } else {
-            3_000
+            36_000
         }
     }
     fn gen_plan(&self, seed: u64, _idx: u64, _t: bool) -> Value {
